@@ -11,7 +11,7 @@ CHECKS = {
         "C01_history_independent (stateful evaluation = pure normal form). Tied to the code per run by (A) a regenerated "
         "obligation that the registry left by importing all shipped modules is well-formed (swfb by vm_compute) and (B) "
         "kernel-checked correspondence of the model with the implementation on random histories, plus the property's "
-        "own monitor over Unit._known after every step.",
+        "own monitor over Unit._known after every step. Gen_purity: no statement of formatting.py mutates anything reachable from a parameter (ast scan, fail-closed); a rendering paused before each of its source lines while another thread does arithmetic on the unit leaves every unit consistent.",
    note=TB + "Modelled, not verified: Unit.__new__/__init__ interning, dict semantics; direct Unit(...) constructor calls with "
         "an inconsistent dimension are outside the property. Axioms: none (closed under the global context).",
    tech="Rocq proof: invariant by induction over histories + vm_compute correspondence lemmas", ref="DESIGN.md §4 C01"),
@@ -19,7 +19,7 @@ CHECKS = {
    text="Theorems C02_identity (same table handle iff same normal form, in every reachable state), and the abelian-group "
         "laws C02_mul_comm/assoc/one_neutral/inverse/div_is_mul_inv/pow_add/pow_mul/root_pow plus dimension and same-base "
         "prefix laws, for all units. Correspondence: identity classes (id()) and normal forms of the implementation vs "
-        "model on law-shaped expression groups evaluated in shuffled order; mixed-base prefixes numerically at 1e-9.",
+        "model on law-shaped expression groups evaluated in shuffled order; mixed-base prefixes numerically at 1e-9. C02_define_keeps_table_canonical / C02_define_keeps_objects / C02_define_commutes_with_arithmetic (Model/DimDefine.v): Dimension.define re-keys the intern table without duplicating, moving or re-shaping anything, and the group operations commute with the re-keying; per run Gen_rekey pushes the exported table through the modelled define and compares with the table exported after.",
    note=TB + "Float exponents of mixed-base prefixes are outside the exact model (property relaxes them to 1e-9); their real-number meaning is proved exactly over R (C02_mixed_base_mul/div/pow). Axioms: none for the exact theorems; the three mixed-base theorems use the standard library reals (ClassicalDedekindReals.sig_not_dec, sig_forall_dec, functional_extensionality_dep, Classical_Prop.classic).",
    tech="Rocq proof: free-abelian-group normal forms over gmap + intern-table invariant; vm_compute correspondence", ref="DESIGN.md §4 C02"),
  "C08": dict(
@@ -41,7 +41,7 @@ CHECKS = {
         "exported registry that the (prefix, factors) keys of all registered units are pairwise distinct and that every unit's constructor arguments find it; on the "
         "implementation every registered dimension, prefix and unit goes through pickle (default and protocol 2), copy, deepcopy, the JSON codec classes, the installed "
         "codecs and pydantic (JSON text and plain dict), plus random compound / prefixed units, mixed-base prefixes and int/float/Decimal quantities (also the SQL "
-        "composite form): identity, unchanged names/symbols, equality, magnitude type. Codec model (Model/Codec.v): JSON documents of dimensions, prefixes and units as a datatype, enc/dec as functions against the interning registry; C15_json_unit_roundtrip(_checked): decoding the written document returns the same handle and leaves the registry unchanged under unique keys, faithful names, stored factors, canonical prefixes (boolean forms proved sound and evaluated on the exported registry each run); C15_json_dimension/prefix_roundtrip; C15_refuted_value_one_prefix (the defect repaired by 1df1998, found by this proof); pickle model pload/pdump with C15_pickle_roundtrip, C15_stale_pickle_keeps_names, C15_refuted_stale_pickle (36300c5). Tie: keys read by each __from_json__ and the __setstate__ guards extracted from the source (fail-closed); encoder documents = enc_unit and the library's decoder = dec_unit on written and mutated documents, in the kernel.",
+        "composite form): identity, unchanged names/symbols, equality, magnitude type. Codec model (Model/Codec.v): JSON documents of dimensions, prefixes and units as a datatype, enc/dec as functions against the interning registry; C15_json_unit_roundtrip(_checked): decoding the written document returns the same handle and leaves the registry unchanged under unique keys, faithful names, stored factors, canonical prefixes (boolean forms proved sound and evaluated on the exported registry each run); C15_json_dimension/prefix_roundtrip; C15_refuted_value_one_prefix (the defect repaired by 1df1998, found by this proof); pickle model pload/pdump with C15_pickle_roundtrip, C15_stale_pickle_keeps_names, C15_refuted_stale_pickle (36300c5). Tie: keys read by each __from_json__ and the __setstate__ guards extracted from the source (fail-closed); encoder documents = enc_unit and the library's decoder = dec_unit on written and mutated documents, in the kernel. C15_quantity_document_roundtrip / C15_quantity_document_fails_only_through_unit_text: the quantity document (magnitude with its type + str(unit)) round-trips exactly when the unit's text does.",
    note=TB + "Modelled, not verified: the pickle / copy / json / pydantic protocols themselves (that they call __new__ with __getnewargs_ex__ / __from_json__). Quantity JSON "
         "stores the unit as text and inherits C13's findings (known finding). Pickle protocols 0/1 cannot pickle __slots__ classes (CPython rule). Axioms: none.",
    tech="Rocq proof: intern-table re-entry lemmas (generic keyed table + unit table over all histories) + reflective vm_compute check of the exported registry + exhaustive codec runs",
@@ -179,7 +179,7 @@ CHECKS = {
         "C13_divide_is_negative_exponent. Per run, on the symbol tables exported from the implementation: the collision sweep over EVERY prefix symbol x EVERY unit symbol "
         "and every registered name evaluated in the kernel; kernel-checked model = implementation for Unit.resolve_symbol (whole grid + names), for the text of str(unit) "
         "(rendered in Coq, superscripts included) and for Unit.parse(str(unit)) over every named unit x every prefix x exponents and random products; quantities and "
-        "alternative spellings evaluated on the implementation. Text level: Run_print_*.text_level_agrees -- the text the model's printer writes, scanned and parsed by the character-level parser model, gives back exactly the printed term list for every unit of the run; C13_text_roundtrip_is_term_roundtrip lifts C13_parse_print to Unit.parse(str(u)).",
+        "alternative spellings evaluated on the implementation. Text level: Run_print_*.text_level_agrees -- the text the model's printer writes, scanned and parsed by the character-level parser model, gives back exactly the printed term list for every unit of the run; C13_text_roundtrip_is_term_roundtrip lifts C13_parse_print to Unit.parse(str(u)). C13_superscript_reads_back: the printed exponent reads back as the same integer, for every integer. Gen_purity: printing mutates nothing it is given.",
    note=TB + "The string <-> term step (lexing; juxtaposition vs explicit operators) is covered by correspondence and by C16, not by a theorem. Known finding classes: "
         "leading magnitude, prefix without symbol, seven prefix+symbol collisions (kg is the deliberate equal mapping). Mixed-base prefixes are outside the exact model. Axioms: none.",
    tech="Rocq proof: parse-of-print over the unit algebra (induction over the term list, uwf invariant) + reflective vm_compute sweep of the exported symbol tables + kernel-checked correspondence",
